@@ -143,7 +143,7 @@ func (w *c35World) newACL(t ev.TB) *launch.YAMLACL {
 
 // c35Judge compares ACL.Allow with the model for one query. Returns the deciding step.
 func c35Judge(
-	t ev.TB, r *ev.Rec, acl *launch.YAMLACL, tb c35Table, w *c35World, user, scope string, required int, yaml string, how string,
+	t ev.TB, r *ev.Rec, acl *launch.YAMLACL, tb, prev c35Table, w *c35World, user, scope string, required int, yaml string, how string,
 ) int {
 	wantAllow, wantAssigned, step := c35Decide(tb, w.superuser, user, scope, required)
 
@@ -151,12 +151,27 @@ func c35Judge(
 
 	uname := c35UserName(w, user)
 
+	// diagnosis only (the oracle is always the LATEST table): when the wrong answer is exactly what the table loaded
+	// BEFORE the last update gives, the root cause is an update that was not applied, not the precedence walk.
+	stale := false
+
+	if prev != nil {
+		pAllow, pAssigned, _ := c35Decide(prev, w.superuser, user, scope, required)
+		stale = gotAllow == pAllow && int(gotAssigned) == pAssigned && (pAllow != wantAllow || pAssigned != wantAssigned)
+	}
+
+	if stale {
+		how += " [the answer is the one of the table loaded BEFORE this update]"
+	}
+
 	if gotAllow != wantAllow {
 		sig := "precedence"
 
 		switch {
 		case user == w.superuser:
 			sig = "superuser-denied"
+		case stale:
+			sig = "stale-table-after-update"
 		case wantAssigned == c35Prohibit:
 			sig = "prohibit-not-final"
 		case step == 5 && gotAllow:
@@ -170,7 +185,11 @@ func c35Judge(
 	// the permission reported as "assigned" names the entry that decided (documented by the in-tree tests of Allow)
 	if step >= 1 && step <= 4 && int(gotAssigned) != wantAssigned {
 		sig := "assigned-mismatch"
-		if wantAssigned == c35Prohibit {
+
+		switch {
+		case stale:
+			sig = "stale-table-after-update"
+		case wantAssigned == c35Prohibit:
 			sig = "prohibit-not-final"
 		}
 
@@ -223,6 +242,52 @@ func c35Import(t ev.TB, acl *launch.YAMLACL, w *c35World, yaml string) {
 	if _, err := acl.Import([]byte(yaml), w.enc); err != nil {
 		t.Fatalf("harness: Import rejected a well-formed table: %v\n%s", err, yaml)
 	}
+}
+
+func c35Clone(tb c35Table) c35Table {
+	n := c35Table{}
+
+	for u, m := range tb {
+		if len(m) < 1 {
+			continue
+		}
+
+		n[u] = map[string]int{}
+		for s, p := range m {
+			n[u][s] = p
+		}
+	}
+
+	return n
+}
+
+// c35CellsOf lists, in the fixed order of users x scopes, the cells that are present (or absent) in the table;
+// onlyLoadedUsers restricts to users that have at least one entry.
+func c35CellsOf(tb c35Table, users, scopes []string, present, onlyLoadedUsers bool) [][2]string {
+	var out [][2]string
+
+	for _, u := range users {
+		if onlyLoadedUsers && len(tb[u]) < 1 {
+			continue
+		}
+
+		for _, s := range scopes {
+			if _, found := tb[u][s]; found == present {
+				out = append(out, [2]string{u, s})
+			}
+		}
+	}
+
+	return out
+}
+
+// c35Both renders "table in force before the update" + "latest table" for messages.
+func c35Both(before, latest string) string {
+	if len(before) < 1 {
+		before = "  (no entries)\n"
+	}
+
+	return "# loaded before the update:\n" + before + "# latest (imported into the same ACL):\n" + latest
 }
 
 func TestC35(t *testing.T) {
@@ -343,7 +408,7 @@ func TestC35(t *testing.T) {
 			for _, u := range qusers {
 				for _, s := range qscopes {
 					for _, req := range requireds {
-						step := c35Judge(t, r, acl, tb, w, u, s, req, yaml, fmt.Sprintf("table #%d", idx))
+						step := c35Judge(t, r, acl, tb, nil, w, u, s, req, yaml, fmt.Sprintf("table #%d", idx))
 						stepHist[step]++
 						evals++
 
@@ -397,6 +462,155 @@ func TestC35(t *testing.T) {
 		r.CaseN(c35Super, c35Super, "part:text-in-table")
 	})
 
+	// ---- B'. exhaustive single-entry updates of a LOADED table: table A is in force, table B = A with one cell
+	// added, dropped or changed is imported into the same ACL (and then A again: the reverse edge); every decision
+	// must be the one of the latest table.
+	t.Run("update-exhaustive", func(t *testing.T) {
+		uvalues := []int{c35Absent, c35Prohibit, 3}
+		utotal := 1
+
+		for range cells {
+			utotal *= len(uvalues)
+		}
+
+		mk := func(idx int) c35Table {
+			tb := c35Table{}
+
+			for _, c := range cells {
+				v := uvalues[idx%len(uvalues)]
+				idx /= len(uvalues)
+
+				if v == c35Absent {
+					continue
+				}
+
+				if tb[c[0]] == nil {
+					tb[c[0]] = map[string]int{}
+				}
+
+				tb[c[0]][c[1]] = v
+			}
+
+			return tb
+		}
+
+		rusers := []string{w.u1, c35DefaultName}
+		rscopes := []string{c35DefaultName, "s2", "s1"}
+		ureq := []int{2, 3, 4}
+
+		var evals, nontrivial, edges int64
+		var kinds [3]int64 // gain, drop, change
+		sampled := map[string]bool{}
+
+		judgeAll := func(acl *launch.YAMLACL, tb, prev c35Table, yaml, how string) (fallback bool) {
+			for _, u := range qusers {
+				for _, s := range qscopes {
+					for _, req := range ureq {
+						step := c35Judge(t, r, acl, tb, prev, w, u, s, req, yaml, how)
+						evals++
+
+						if step >= 2 && step <= 4 {
+							nontrivial++
+							fallback = true
+						}
+					}
+				}
+			}
+
+			return fallback
+		}
+
+		for a := 0; a < utotal; a++ {
+			if !r.Mine(a) {
+				continue
+			}
+
+			ta := mk(a)
+			ya := c35YAML(ta, tusers, tscopes, a%2 == 1)
+			acl := w.newACL(t)
+
+			if len(ya) > 0 {
+				c35Import(t, acl, w, ya)
+
+				// the same table written with another order of users and scopes and the other quoting: same decisions
+				yr := c35YAML(ta, rusers, rscopes, a%2 == 0)
+				c35Import(t, acl, w, yr)
+				judgeAll(acl, ta, nil, c35Both(ya, yr), fmt.Sprintf("table #%d re-imported with users and scopes in another order", a))
+				edges++
+			}
+
+			pow := 1
+
+			for _, c := range cells {
+				av := (a / pow) % len(uvalues)
+
+				for vi := range uvalues {
+					b := a + (vi-av)*pow
+					if b <= a {
+						continue // the edge b -> a is walked from b
+					}
+
+					tb := mk(b) // b > 0: never empty
+
+					var yb string
+					if (a+b)%2 == 0 {
+						yb = c35YAML(tb, tusers, tscopes, b%2 == 1)
+					} else {
+						yb = c35YAML(tb, rusers, rscopes, b%2 == 1)
+					}
+
+					kind, kname := 2, "changed"
+
+					switch {
+					case av == 0:
+						kind, kname = 0, "added"
+					case vi == 0:
+						kind, kname = 1, "dropped"
+					}
+
+					cu := c[0]
+					if cu == w.u1 {
+						cu = "u1"
+					}
+
+					c35Import(t, acl, w, yb)
+					fb := judgeAll(acl, tb, ta, c35Both(ya, yb), fmt.Sprintf("update of a loaded table (#%d -> #%d), entry %s/%s %s: %s -> %s",
+						a, b, cu, c[1], kname, c35Text(uvalues[av]), c35Text(uvalues[vi])))
+					kinds[kind]++
+					edges++
+
+					if fb && !sampled[kname] && a%53 == 7 && r.WantSample() {
+						sampled[kname] = true
+						r.Sample(map[string]any{"part": "update-exhaustive", "entry": cu + "/" + c[1], "edit": kname, "tables": c35Redact(w, c35Both(ya, yb))})
+					}
+
+					if len(ya) < 1 {
+						// A is the table without entries; it cannot be written as text (Import ignores an empty body),
+						// so the next edge starts from a fresh ACL again
+						acl = w.newACL(t)
+
+						continue
+					}
+
+					// reverse edge: back to A (dropped <-> added, changed back)
+					c35Import(t, acl, w, ya)
+					judgeAll(acl, ta, tb, c35Both(yb, ya), fmt.Sprintf("update of a loaded table (#%d -> #%d), entry %s/%s: %s -> %s",
+						b, a, cu, c[1], c35Text(uvalues[vi]), c35Text(uvalues[av])))
+					kinds[[3]int{1, 0, 2}[kind]]++
+					edges++
+				}
+
+				pow *= len(uvalues)
+			}
+		}
+
+		r.CaseN(evals, nontrivial, "part:update-exhaustive")
+		r.Class("update:entry-added", kinds[0])
+		r.Class("update:entry-dropped", kinds[1])
+		r.Class("update:entry-changed", kinds[2])
+		r.Extra("update_exhaustive_transitions", edges)
+	})
+
 	r.Exhaustive(true)
 
 	// ---- C. random wider tables, repeated imports into one ACL
@@ -418,6 +632,8 @@ func TestC35(t *testing.T) {
 
 		nontrivial := false
 		classes := map[string]bool{"part:random": true}
+
+		var inForce c35Table // table loaded by the previous import (nil: none yet)
 
 		for im := 0; im < nImports; im++ {
 			tb := c35Table{}
@@ -454,7 +670,7 @@ func TestC35(t *testing.T) {
 				s := rapid.SampledFrom([]string{"s1", "s2", "s3", "s4", "s9"}).Draw(rt, "qscope")
 				req := reqGen.Draw(rt, "required")
 
-				step := c35Judge(rt, r, acl, tb, w, u, s, req, yaml, fmt.Sprintf("import %d of %d into one ACL", im+1, nImports))
+				step := c35Judge(rt, r, acl, tb, inForce, w, u, s, req, yaml, fmt.Sprintf("import %d of %d into one ACL", im+1, nImports))
 				fmt.Fprintf(&fp, "%s,%s,%d;", c35UserName(w, u), s, req)
 
 				if step >= 2 && step <= 4 {
@@ -466,6 +682,8 @@ func TestC35(t *testing.T) {
 					classes["reimport"] = true
 				}
 			}
+
+			inForce = tb
 		}
 
 		cl := make([]string, 0, len(classes))
